@@ -668,8 +668,7 @@ DoOpEnd(e) ==
   /\ UNCHANGED <<tables, clock, stack, pc, held, exitRes, stT, stA, lastRes, lost>>
 
 (* --- panics injected into database callbacks (C12) --- *)
-\* event Panic: a callback panicked while the engine was at `pc`.  Whatever strand
-\* ensure_root_answer held in a local is gone (deviation SLG_PanicWhileStrandHeld).
+\* event Panic: a callback panicked while the engine was at `pc`.
 \* merge_answer_into_strand enqueues the strand that waits for the table's NEXT answer before it unifies the answer into the strand
 \* (the first point at which it calls into the database): a panic during the merge leaves that strand in the queue
 PanicDuringMergeLeaves ==
@@ -681,13 +680,18 @@ PanicDuringMergeLeaves ==
             THEN <<[s EXCEPT !.selA = s.selA + 1]>> ELSE <<>>
        ELSE <<>>
   ELSE <<>>
+\* The two places where ensure_root_answer calls into the database while it holds a strand in a local -- creating the table of a
+\* subgoal (select_subgoal) and unifying an answer into the strand (merge_answer_into_strand) -- first leave a copy of the strand in
+\* the stack entry (fix F28), so that `Drop for SolveState` re-enqueues it when the callback unwinds.
+Parked == pc \in {"select", "selected"} /\ held # <<>> /\ stack # <<>>
 DoPanic(e) ==
   /\ pc \notin {"idle", "exit", "panicked"} \/ (pc = "idle" /\ op.phase \in {"stream"})
-  /\ lost' = lost \o held
+  /\ lost' = IF Parked THEN lost ELSE lost \o held
+  /\ stack' = IF Parked THEN SetTop(stack, [Top EXCEPT !.active = held]) ELSE stack
   /\ held' = <<>>
   /\ pc' = "panicked"
   /\ tables' = IF PanicDuringMergeLeaves # <<>> THEN Enq(tables, TopT, PanicDuringMergeLeaves[1]) ELSE tables
-  /\ UNCHANGED <<clock, stack, exitRes, stT, stA, lastRes, op>>
+  /\ UNCHANGED <<clock, exitRes, stT, stA, lastRes, op>>
 
 \* event OpEnd{class = "Panic"} after a panic: the unwinding reached the caller
 DoOpEndPanic(e) ==
